@@ -1,5 +1,11 @@
 /-
 C13 — Inline caches are transparent.
+
+What a site "does" (`Cache.Res`) includes what it leaves on the operand stack: the value read, the
+value of an assignment expression (`Res.wrote slot stored left`), the call.  `C13_transparent` is
+therefore also the statement that a hit and a fill leave the same value; `C13_write_leaves_assigned`
+that this value is the assigned one.  The stack statements of the two property ops are read from the
+Rust text (`Gen.CacheSites.paths`, [G] section at the end).
 -/
 import LaytheVerif.Model.Cache
 import LaytheVerif.Gen.CacheSites
@@ -50,18 +56,34 @@ def GoodS (w : World) (name : String) : ICache → Prop
   | none => True
   | some (c, m) => w.method c name = some m
 
+/-- The stack statements the two property ops have never get stuck, and say: a read leaves the slot's
+content in place of the receiver; a write stores the assigned value and leaves the assigned value in
+place of receiver and value. -/
+theorem C13_shuffles_run (i v fv : Nat) :
+    writeRes writeShuffle i v = .wrote i (.val v) (.val v) ∧ readRes readShuffle fv = .value (.val fv) :=
+  ⟨rfl, rfl⟩
+
+/-- The same on an operand stack of any depth: nothing below the site's operands is touched. -/
+theorem C13_shuffles_any_stack (v fv : Nat) (rest : List Item) :
+    runOps fv writeShuffle { stack := .val v :: .recv :: rest } =
+      some { stack := .val v :: rest, inst := some .recv, value := some (.val v), stored := some (.val v) } ∧
+    runOps fv readShuffle { stack := .recv :: rest } =
+      some { stack := .val fv :: rest, inst := some .recv, value := some .recv } :=
+  ⟨rfl, rfl⟩
+
 theorem get_step (w : World) (name : String) (cache : PCache) (r : Recv) (hg : GoodP w name cache) :
     (getCached w name cache r).1 = getSlow w name r ∧ GoodP w name (getCached w name cache r).2 := by
+  have hr : ∀ fv, readRes readShuffle fv = .value (.val fv) := fun _ => rfl
   cases r with
-  | prim c => simp [getCached, getSlow, GoodP]
+  | prim c => simp [getCached, getCachedWith, getSlow, GoodP]
   | inst c fs =>
     cases cache with
     | none =>
-      simp only [getCached, getSlow]
+      simp only [getCached, getCachedWith, getSlow, hr]
       cases h : w.fieldIndex c name <;> simp [GoodP, h]
     | some p =>
       obtain ⟨cc, i⟩ := p
-      simp only [getCached, getSlow]
+      simp only [getCached, getCachedWith, getSlow, hr]
       by_cases hc : cc = c
       · subst hc
         simp only [GoodP] at hg
@@ -69,18 +91,20 @@ theorem get_step (w : World) (name : String) (cache : PCache) (r : Recv) (hg : G
       · simp only [hc, if_false]
         cases h : w.fieldIndex c name <;> simp [GoodP, h]
 
-theorem set_step (w : World) (name : String) (cache : PCache) (r : Recv) (hg : GoodP w name cache) :
-    (setCached w name cache r).1 = setSlow w name r ∧ GoodP w name (setCached w name cache r).2 := by
+theorem set_step (w : World) (name : String) (cache : PCache) (rv : Recv × Nat) (hg : GoodP w name cache) :
+    (setCached w name cache rv).1 = setSlow w name rv ∧ GoodP w name (setCached w name cache rv).2 := by
+  have hw : ∀ i v, writeRes writeShuffle i v = .wrote i (.val v) (.val v) := fun _ _ => rfl
+  obtain ⟨r, v⟩ := rv
   cases r with
-  | prim c => simp [setCached, setSlow, hg]
+  | prim c => simp [setCached, setCachedWith, setSlow, hg]
   | inst c fs =>
     cases cache with
     | none =>
-      simp only [setCached, setSlow]
+      simp only [setCached, setCachedWith, setSlow, hw]
       cases h : w.fieldIndex c name <;> simp [GoodP, h]
     | some p =>
       obtain ⟨cc, i⟩ := p
-      simp only [setCached, setSlow]
+      simp only [setCached, setCachedWith, setSlow, hw]
       by_cases hc : cc = c
       · subst hc
         simp only [GoodP] at hg
@@ -150,19 +174,94 @@ theorem super_step (w : World) (name : String) (cache : ICache) (sup : Nat) (hg 
 
 /-- **C13_transparent.** For every site kind and every history of receivers arriving at the site
 — first execution, one class repeatedly, many classes alternating, instances whose field shadows a
-method, non-instances — the cached implementation does exactly what the slow path does, provided the
-class tables are frozen (`World`) and the entry the site starts with is consistent (in particular the
-empty entry a fresh module cache holds). -/
+method, non-instances — the cached implementation does exactly what the slow path does, *including
+what it leaves on the operand stack* (`Res.value left`, `Res.wrote slot stored left`: a hit and a
+fill leave the same value), provided the class tables are frozen (`World`) and the entry the site
+starts with is consistent (in particular the empty entry a fresh module cache holds).  A write site's
+history is a list of (receiver, assigned value). -/
 theorem C13_transparent (w : World) (name : String) :
     (∀ rs cache, GoodP w name cache → (runSite (getCached w name) cache rs).1 = rs.map (getSlow w name)) ∧
-    (∀ rs cache, GoodP w name cache → (runSite (setCached w name) cache rs).1 = rs.map (setSlow w name)) ∧
+    (∀ (ws : List (Recv × Nat)) cache, GoodP w name cache →
+        (runSite (setCached w name) cache ws).1 = ws.map (setSlow w name)) ∧
     (∀ rs cache, GoodI w name cache → (∀ r ∈ rs, primNoFields w name r) →
         (runSite (invokeCached w name) cache rs).1 = rs.map (invokeSlow w name)) ∧
     (∀ ss cache, GoodS w name cache → (runSite (superCached w name) cache ss).1 = ss.map (superSlow w name)) :=
   ⟨fun rs c h => history_transparent _ _ _ (fun _ => True) (fun c r hg _ => get_step w name c r hg) rs (fun _ _ => trivial) c h,
-   fun rs c h => history_transparent _ _ _ (fun _ => True) (fun c r hg _ => set_step w name c r hg) rs (fun _ _ => trivial) c h,
+   fun ws c h => history_transparent _ _ _ (fun _ => True) (fun c r hg _ => set_step w name c r hg) ws (fun _ _ => trivial) c h,
    fun rs c h hp => history_transparent _ _ _ (primNoFields w name) (fun c r hg hr => invoke_step w name c r hg hr) rs hp c h,
    fun ss c h => history_transparent _ _ _ (fun _ => True) (fun c s hg _ => super_step w name c s hg) ss (fun _ _ => trivial) c h⟩
+
+/-- **C13_write_leaves_assigned.** At every position of every history of a write site — first execution,
+hit, refill after another class — a write that succeeds stores the value that was assigned at that
+position and leaves that value (not the receiver) as the value of the assignment expression. -/
+theorem C13_write_leaves_assigned (w : World) (name : String) (ws : List (Recv × Nat)) (cache : PCache)
+    (hg : GoodP w name cache) (k slot : Nat) (stored left : Item)
+    (hk : (runSite (setCached w name) cache ws).1[k]? = some (.wrote slot stored left)) :
+    ∃ r v, ws[k]? = some (r, v) ∧ stored = .val v ∧ left = .val v ∧ w.fieldIndex r.cls name = some slot := by
+  rw [(C13_transparent w name).2.1 ws cache hg, List.getElem?_map] at hk
+  cases hw : ws[k]? with
+  | none => simp [hw] at hk
+  | some rv =>
+    obtain ⟨r, v⟩ := rv
+    refine ⟨r, v, rfl, ?_⟩
+    simp only [hw, Option.map_some, Option.some.injEq] at hk
+    cases r with
+    | prim c => simp [setSlow] at hk
+    | inst c fs =>
+      simp only [setSlow] at hk
+      cases hf : w.fieldIndex c name with
+      | none => simp [hf] at hk
+      | some i =>
+        simp only [hf, Res.wrote.injEq] at hk
+        obtain ⟨h1, h2, h3⟩ := hk
+        exact ⟨h2.symm, h3.symm, by simp [Recv.cls, hf, h1]⟩
+
+/-- **C13_hit_fill_same_value.** Side by side: the same receiver and value arriving at a slot that
+already holds the receiver's class (hit) and at an empty slot (fill) give the same result — the same slot
+written, the same value stored, the same value left on the stack. -/
+theorem C13_hit_fill_same_value (w : World) (name : String) (c i v : Nat) (fs : List Nat)
+    (h : w.fieldIndex c name = some i) :
+    (setCached w name (some (c, i)) (.inst c fs, v)).1 = .wrote i (.val v) (.val v) ∧
+    (setCached w name none (.inst c fs, v)).1 = .wrote i (.val v) (.val v) := by
+  have hw : ∀ i v, writeRes writeShuffle i v = .wrote i (.val v) (.val v) := fun _ _ => rfl
+  simp [setCached, setCachedWith, h, hw]
+
+/-- **C13_read_leaves_field.** Likewise a read that finds a field leaves that field's content, at
+every position of every history. -/
+theorem C13_read_leaves_field (w : World) (name : String) (rs : List Recv) (cache : PCache)
+    (hg : GoodP w name cache) (k : Nat) (left : Item)
+    (hk : (runSite (getCached w name) cache rs).1[k]? = some (.value left)) :
+    ∃ c fs i, rs[k]? = some (.inst c fs) ∧ w.fieldIndex c name = some i ∧ left = .val (fs.getD i 0) := by
+  rw [(C13_transparent w name).1 rs cache hg, List.getElem?_map] at hk
+  cases hr : rs[k]? with
+  | none => simp [hr] at hk
+  | some r =>
+    simp only [hr, Option.map_some, Option.some.injEq] at hk
+    cases r with
+    | prim c =>
+      simp only [getSlow] at hk
+      cases hm : w.method c name <;> simp [hm] at hk
+    | inst c fs =>
+      simp only [getSlow] at hk
+      cases hf : w.fieldIndex c name with
+      | none =>
+        simp only [hf] at hk
+        cases hm : w.method c name <;> simp [hm] at hk
+      | some i =>
+        simp only [hf, Res.value.injEq] at hk
+        exact ⟨c, fs, i, rfl, hf, hk.symm⟩
+
+/-- **C13_witness_hit_leaves_receiver**: what `setCachedWith` is parametrised for.  A hit arm that stores
+straight from the stack and then drops the top (`instance[slot] = peek(0); drop()`) writes the right
+value but leaves the *receiver*: the first execution (fill) and the second (hit) of one site with one
+class then differ in the value of the assignment expression, and only there. -/
+theorem C13_witness_hit_leaves_receiver :
+    let w : World := { fieldIndex := fun c n => if c = 7 ∧ n = "x" then some 0 else none, method := fun _ _ => none }
+    let hit : List SOp := [.letPeek .inst 1, .asInstance .inst, .storePeek 0, .drop]
+    (runSite (setCachedWith hit writeShuffle w "x") none [(.inst 7 [0], 5), (.inst 7 [5], 6)]).1 =
+      [.wrote 0 (.val 5) (.val 5), .wrote 0 (.val 6) .recv] ∧
+    [(Recv.inst 7 [0], 5), (.inst 7 [5], 6)].map (setSlow w "x") = [.wrote 0 (.val 5) (.val 5), .wrote 0 (.val 6) (.val 6)] := by
+  decide
 
 /-- Property reads and writes share one slot kind: a site of one kind keeps the other's invariant. -/
 theorem C13_fresh_cache_good (w : World) (name : String) :
@@ -204,6 +303,16 @@ example :
     (runSite (invokeCached w "f") none [.inst 2 [], .inst 2 [], .inst 1 [5], .inst 3 [], .prim 9, .inst 2 []]).1 =
       [.callMethod 200, .callMethod 200, .callField 5, .callMethod 300, .propertyError, .callMethod 200] := by decide
 
+/-- a write history with a fill, hits (same instance, another instance of the class), a class with the
+field in another slot, a class without the field, a non-instance, and a refill -/
+example :
+    let w : World := { fieldIndex := fun c n => if n = "x" then (if c = 1 then some 0 else if c = 2 then some 1 else none) else none,
+                       method := fun _ _ => none }
+    (runSite (setCached w "x") none
+        [(.inst 1 [0], 5), (.inst 1 [5], 6), (.inst 1 [9], 7), (.inst 2 [0, 0], 8), (.inst 3 [], 9), (.prim 4, 1), (.inst 1 [6], 2)]) =
+      ([.wrote 0 (.val 5) (.val 5), .wrote 0 (.val 6) (.val 6), .wrote 0 (.val 7) (.val 7), .wrote 1 (.val 8) (.val 8),
+        .propertyError, .notInstanceError, .wrote 0 (.val 2) (.val 2)], some (1, 0)) := by decide
+
 /-! ### [G] tie to cache.rs / ops.rs as they are now (regenerated by tools/translate.py) -/
 
 /-- Every cache getter answers `Some` only under `cache.class == class` — the guard `getCached`,
@@ -227,5 +336,196 @@ theorem C13_uses_eq_gen : Gen.CacheSites.uses = [
     ("op_get_prop_by_name", "get_property_cache", ["inline_slot", "class"]),
     ("op_get_prop_by_name", "set_property_cache", ["inline_slot", "class", "property_slot as usize"]),
     ("op_get_prop_by_name", "clear_property_cache", ["inline_slot"])] := rfl
+
+/-! ### [G] the control paths and stack statements of the four ops (regenerated from ops.rs)
+
+`Gen.CacheSites.paths` lists every control path through `op_invoke`, `op_super_invoke`,
+`op_set_prop_by_name` and `op_get_prop_by_name`: guards taken, cache accessor calls, operand-stack
+statements, exits.  `C13_paths_eq_gen` pins that text to the branch structure `…Cached` mirror;
+`C13_write_paths_gen` / `C13_read_paths_gen` read the stack statements of the arms that succeed as the
+`SOp` sequences the model runs, hit arm and fill arm separately — so an edit to what either arm leaves on
+the stack re-opens a proof. -/
+
+/-- what every path of `op_invoke` starts with -/
+def invokePre : List (String × String) := [
+  ("let", "let constant = self.read_short()"),
+  ("let", "let arg_count = self.read_byte()"),
+  ("let", "let inline_slot = self.read_slot() as usize"),
+  ("let", "let method_name = self.read_string(constant)"),
+  ("stack", "let receiver = self.fiber.peek(arg_count as usize)"),
+  ("let", "let class = self.value_class(receiver)")]
+
+/-- what every path of `op_super_invoke` starts with -/
+def superPre : List (String × String) := [
+  ("let", "let constant = self.read_short()"),
+  ("let", "let arg_count = self.read_byte()"),
+  ("let", "let inline_slot = self.read_slot() as usize"),
+  ("let", "let method_name = self.read_string(constant)"),
+  ("stack", "let super_class = self.fiber.pop().to_obj().to_class()")]
+
+/-- what every path of `op_set_prop_by_name` starts with -/
+def setPre : List (String × String) := [
+  ("let", "let slot = self.read_short()"),
+  ("stack", "let instance = self.fiber.peek(1)"),
+  ("let", "let name = self.read_string(slot)"),
+  ("let", "let inline_slot = self.read_slot() as usize")]
+
+/-- what every path of `op_get_prop_by_name` starts with -/
+def getPre : List (String × String) := [
+  ("let", "let slot = self.read_short()"),
+  ("stack", "let value = self.fiber.peek(0)"),
+  ("let", "let name = self.read_string(slot)"),
+  ("let", "let inline_slot = self.read_slot() as usize")]
+
+/-- the control paths of the four cached ops as the model mirrors them, branch for branch -/
+def expectedPaths : List (String × List (String × String)) := [
+  ("op_invoke", invokePre ++ [
+    ("guard", "match self.inline_cache().get_invoke_cache(inline_slot, class) => Some(method)"),
+    ("exit", "self.resolve_call(method, arg_count)")]),
+  ("op_invoke", invokePre ++ [
+    ("guard", "match self.inline_cache().get_invoke_cache(inline_slot, class) => None"),
+    ("bind", "if_let_obj ObjectKind::Instance(instance) = (receiver)"),
+    ("guard", "if let Some(field) = instance.get_field(method_name)"),
+    ("stack", "self.fiber.peek_set(arg_count as usize, *field)"),
+    ("cache", "self.inline_cache_mut().clear_invoke_cache(inline_slot)"),
+    ("exit", "return self.resolve_call(*field, arg_count)")]),
+  ("op_invoke", invokePre ++ [
+    ("guard", "match self.inline_cache().get_invoke_cache(inline_slot, class) => None"),
+    ("bind", "if_let_obj ObjectKind::Instance(instance) = (receiver)"),
+    ("guard", "not if let Some(field) = instance.get_field(method_name)"),
+    ("guard", "match class.get_method(&method_name) => Some(method)"),
+    ("cache", "self.inline_cache_mut().set_invoke_cache(inline_slot, class, method)"),
+    ("exit", "self.resolve_call(method, arg_count)")]),
+  ("op_invoke", invokePre ++ [
+    ("guard", "match self.inline_cache().get_invoke_cache(inline_slot, class) => None"),
+    ("bind", "if_let_obj ObjectKind::Instance(instance) = (receiver)"),
+    ("guard", "not if let Some(field) = instance.get_field(method_name)"),
+    ("guard", "match class.get_method(&method_name) => None"),
+    ("exit", "runtime_error property")]),
+  ("op_invoke", invokePre ++ [
+    ("guard", "match self.inline_cache().get_invoke_cache(inline_slot, class) => None"),
+    ("guard", "not if_let_obj ObjectKind::Instance(instance) = (receiver)"),
+    ("guard", "match class.get_method(&method_name) => Some(method)"),
+    ("cache", "self.inline_cache_mut().set_invoke_cache(inline_slot, class, method)"),
+    ("exit", "self.resolve_call(method, arg_count)")]),
+  ("op_invoke", invokePre ++ [
+    ("guard", "match self.inline_cache().get_invoke_cache(inline_slot, class) => None"),
+    ("guard", "not if_let_obj ObjectKind::Instance(instance) = (receiver)"),
+    ("guard", "match class.get_method(&method_name) => None"),
+    ("exit", "runtime_error property")]),
+  ("op_super_invoke", superPre ++ [
+    ("guard", "match self.inline_cache().get_invoke_cache(inline_slot, super_class) => Some(method)"),
+    ("exit", "self.resolve_call(method, arg_count)")]),
+  ("op_super_invoke", superPre ++ [
+    ("guard", "match self.inline_cache().get_invoke_cache(inline_slot, super_class) => None"),
+    ("guard", "match super_class.get_method(&method_name) => Some(method)"),
+    ("cache", "self.inline_cache_mut().set_invoke_cache(inline_slot, super_class, method)"),
+    ("exit", "self.resolve_call(method, arg_count)")]),
+  ("op_super_invoke", superPre ++ [
+    ("guard", "match self.inline_cache().get_invoke_cache(inline_slot, super_class) => None"),
+    ("guard", "match super_class.get_method(&method_name) => None"),
+    ("exit", "runtime_error property")]),
+  ("op_set_prop_by_name", setPre ++ [
+    ("bind", "if_let_obj ObjectKind::Instance(mut instance) = (instance)"),
+    ("let", "let class = instance.class()"),
+    ("guard", "match self.inline_cache().get_property_cache(inline_slot, class) => Some(property_slot)"),
+    ("stack", "let value = self.fiber.pop()"),
+    ("stack", "self.fiber.drop()"),
+    ("stack", "self.fiber.push(value)"),
+    ("stack", "instance[property_slot] = value"),
+    ("exit", "return ExecutionSignal::Ok")]),
+  ("op_set_prop_by_name", setPre ++ [
+    ("bind", "if_let_obj ObjectKind::Instance(mut instance) = (instance)"),
+    ("let", "let class = instance.class()"),
+    ("guard", "match self.inline_cache().get_property_cache(inline_slot, class) => None"),
+    ("let", "let property_slot = class.get_field_index(&name)"),
+    ("stack", "let value = self.fiber.pop()"),
+    ("stack", "self.fiber.drop()"),
+    ("stack", "self.fiber.push(value)"),
+    ("guard", "match property_slot => Some(property_slot)"),
+    ("cache", "let cache = self.inline_cache_mut()"),
+    ("cache", "cache.set_property_cache(inline_slot, class, property_slot as usize)"),
+    ("stack", "instance[property_slot as usize] = value"),
+    ("exit", "ExecutionSignal::Ok")]),
+  ("op_set_prop_by_name", setPre ++ [
+    ("bind", "if_let_obj ObjectKind::Instance(mut instance) = (instance)"),
+    ("let", "let class = instance.class()"),
+    ("guard", "match self.inline_cache().get_property_cache(inline_slot, class) => None"),
+    ("let", "let property_slot = class.get_field_index(&name)"),
+    ("stack", "let value = self.fiber.pop()"),
+    ("stack", "self.fiber.drop()"),
+    ("stack", "self.fiber.push(value)"),
+    ("guard", "match property_slot => None"),
+    ("exit", "runtime_error property")]),
+  ("op_set_prop_by_name", setPre ++ [
+    ("guard", "not if_let_obj ObjectKind::Instance(mut instance) = (instance)"),
+    ("exit", "runtime_error runtime")]),
+  ("op_get_prop_by_name", getPre ++ [
+    ("bind", "if_let_obj ObjectKind::Instance(instance) = (value)"),
+    ("let", "let class = instance.class()"),
+    ("guard", "match self.inline_cache().get_property_cache(inline_slot, class) => Some(property_slot)"),
+    ("stack", "self.fiber.peek_set(0, instance[property_slot])"),
+    ("exit", "return ExecutionSignal::Ok")]),
+  ("op_get_prop_by_name", getPre ++ [
+    ("bind", "if_let_obj ObjectKind::Instance(instance) = (value)"),
+    ("let", "let class = instance.class()"),
+    ("guard", "match self.inline_cache().get_property_cache(inline_slot, class) => None"),
+    ("guard", "if let Some(property_slot) = class.get_field_index(&name)"),
+    ("cache", "self.inline_cache_mut().set_property_cache(inline_slot, class, property_slot as usize)"),
+    ("stack", "self.fiber.peek_set(0, instance[property_slot as usize])"),
+    ("exit", "return ExecutionSignal::Ok")]),
+  ("op_get_prop_by_name", getPre ++ [
+    ("bind", "if_let_obj ObjectKind::Instance(instance) = (value)"),
+    ("let", "let class = instance.class()"),
+    ("guard", "match self.inline_cache().get_property_cache(inline_slot, class) => None"),
+    ("guard", "not if let Some(property_slot) = class.get_field_index(&name)"),
+    ("let", "let class = self.value_class(value)"),
+    ("cache", "let cache = self.inline_cache_mut()"),
+    ("cache", "cache.clear_property_cache(inline_slot)"),
+    ("exit", "self.bind_method(class, name)")]),
+  ("op_get_prop_by_name", getPre ++ [
+    ("guard", "not if_let_obj ObjectKind::Instance(instance) = (value)"),
+    ("let", "let class = self.value_class(value)"),
+    ("cache", "let cache = self.inline_cache_mut()"),
+    ("cache", "cache.clear_property_cache(inline_slot)"),
+    ("exit", "self.bind_method(class, name)")])
+]
+
+theorem C13_paths_eq_gen : Gen.CacheSites.paths = expectedPaths := rfl
+
+/-- the paths of `op` that leave through `ExecutionSignal::Ok` -/
+def okPaths (op : String) : List (List (String × String)) :=
+  (Gen.CacheSites.paths.filter (fun p => p.1 == op &&
+    (p.2.contains ("exit", "return ExecutionSignal::Ok") || p.2.contains ("exit", "ExecutionSignal::Ok")))).map (·.2)
+
+/-- does the path go through the hit arm of the property cache test? -/
+def isHitPath (p : List (String × String)) : Bool :=
+  p.contains ("guard", "match self.inline_cache().get_property_cache(inline_slot, class) => Some(property_slot)")
+
+/-- **C13_write_paths_gen.** `op_set_prop_by_name` completes on exactly two paths, the hit arm and the
+fill arm, and the stack statements of each read as `writeShuffle` — the sequences `setCached` runs
+(`setCachedWith writeShuffle writeShuffle`).  With `C13_shuffles_run`: both leave the assigned value. -/
+theorem C13_write_paths_gen :
+    (okPaths "op_set_prop_by_name").map (fun p => (isHitPath p, pathOps p)) =
+      [(true, some writeShuffle), (false, some writeShuffle)] := by decide
+
+/-- **C13_read_paths_gen.** Likewise `op_get_prop_by_name` and `readShuffle`. -/
+theorem C13_read_paths_gen :
+    (okPaths "op_get_prop_by_name").map (fun p => (isHitPath p, pathOps p)) =
+      [(true, some readShuffle), (false, some readShuffle)] := by decide
+
+/-- may the path store into the instance?  (a statement the model cannot read counts as a store) -/
+def mayStore (p : List (String × String)) : Bool :=
+  match pathOps p with
+  | some ops => ops.any (fun o => match o with | .storeValue | .storePeek _ => true | _ => false)
+  | none => true
+
+/-- The other paths of the two property ops (field not found, receiver not an instance; bound-method
+read) consist of statements the model can read, and none stores into the instance. -/
+theorem C13_error_paths_do_not_store :
+    (Gen.CacheSites.paths.filter (fun p => (p.1 == "op_set_prop_by_name" || p.1 == "op_get_prop_by_name") &&
+      !(okPaths p.1).contains p.2)).map (fun p => (p.1, mayStore p.2)) =
+    [("op_set_prop_by_name", false), ("op_set_prop_by_name", false),
+     ("op_get_prop_by_name", false), ("op_get_prop_by_name", false)] := by decide
 
 end LaytheVerif.C13
